@@ -297,7 +297,10 @@ func (w *vhCluster) settle(first *ctrl.Request) {
 	ctx := context.Background()
 	if first != nil {
 		for try := 0; ; try++ {
-			vr.Assume(try < 4)
+			vr.Assert(try < 6, "no quiescence: a Service event is retried without end although nothing fails any more")
+			if try >= 6 {
+				vr.Stop()
+			}
 			_, err := w.r.Reconcile(ctx, *first)
 			if err == nil {
 				break
@@ -314,7 +317,10 @@ func (w *vhCluster) settle(first *ctrl.Request) {
 			<-w.r.Reload
 		}
 		for try := 0; ; try++ {
-			vr.Assume(try < 5)
+			vr.Assert(try < 8, "no quiescence: the full re-sync asks to be retried without end although nothing fails any more")
+			if try >= 8 {
+				vr.Stop()
+			}
 			_, err := w.r.Reconcile(ctx, vhReloadReq)
 			if err == nil {
 				break
